@@ -10,7 +10,8 @@
    and names the first clause that disagrees.
 
    Clauses: dimension, named-gate-matrix, expression-backend, composition, inverse, eq-hash,
-            unitary_and_grad-value, qiskit-name. *)
+            unitary_and_grad-value, qiskit-name.   ("spec-inconsistent" is not a clause: it says that two definitions
+            of this module disagree with each other, and the harness reports it as a machinery failure.) *)
 EXTENDS Naturals, Integers, Sequences, FiniteSets, TLC, Json, IOUtils, Monomial
 
 Cases == JsonDeserialize(IOEnv.TRACE_FILE)
@@ -20,18 +21,49 @@ C == Cases[tid]
 ToSet(s) == {s[i] : i \in 1..Len(s)}
 
 \* ------------------------------------------------------------ descriptors
-\* d = [k, name, p, r, t, n, cr, levels, maps, tag, fz, sub, locs]
+\* d = [k, name, p, r, t, n, cr, levels, maps, tag, fz, sub, locs, given, sel]
 \*   k = "base"       : library gate `name` with constructor/parameter list p on radixes r; t = its observed table
 \*                      (absolute phase) at the parameters used; name = "TABLE": a constant gate built from table t
 \*   k = "dagger" | "tagged" | "frozen" | "power" (n) | "controlled" (cr, levels) | "embedded" (r = outer radixes, maps)
 \*                    : one child in sub
 \*   k = "circuit"    : children sub[i] at locations locs[i] of a circuit on radixes r
+\*   k = "vlg"        : VariableLocationGate of the one child over the candidate locations locs; given = the radixes argument
+\*                      (<<>> = left to the constructor to infer); sel = 0-based index of the location the (one-hot) location
+\*                      parameters select
+\*   name = "OTHER"   : a gate outside the named library (no definition of its matrix here): tag = what was constructed,
+\*                      r / n = the radixes / number of parameters that construction has to advertise, t = its observed table
+
+\* radixes VariableLocationGate(gate, locations) has to infer: qudit q has the radix the gate has at the position q takes in a location
+InferRad(ir, locs) ==
+  LET qs == UNION {Range(locs[j]) : j \in 1..Len(locs)}
+  IN [q \in 1..Cardinality(qs) |->
+        LET j == CHOOSE jj \in 1..Len(locs) : \E i \in 1..Len(locs[jj]) : locs[jj][i] = q - 1
+            i == CHOOSE ii \in 1..Len(locs[j]) : locs[j][ii] = q - 1
+        IN ir[i]]
 RECURSIVE Rad(_)
 Rad(d) == CASE d.k = "base" -> d.r
             [] d.k = "controlled" -> d.cr \o Rad(d.sub[1])
             [] d.k = "embedded" -> d.r
             [] d.k = "circuit" -> d.r
+            [] d.k = "vlg" -> IF Len(d.given) > 0 THEN d.given ELSE InferRad(Rad(d.sub[1]), d.locs)
             [] OTHER -> Rad(d.sub[1])
+
+\* ------------------------------------------------------------ a part placed on some qudits of a wider register
+\* The qudit permutation PermutationMatrix.from_qudit_location(n, radix, loc) denotes (the definition C20 judges that function by:
+\* Graph.tla PermVerdict = Monomial.tla GateN "PERM"): qudit loc[i] moves to position i, the rest follow in increasing order.
+\* With one radix it is GateTable("PERM", loc, r); with mixed radixes the register it maps into has the permuted radixes.
+FullPerm(loc, n) == loc \o SelectSeq([i \in 1..n |-> i - 1], LAMBDA q : \A j \in 1..Len(loc) : loc[j] # q)
+QuditPerm(loc, r) ==
+  LET full == FullPerm(loc, Len(r))
+      pr == [i \in 1..Len(r) |-> r[full[i] + 1]]
+  IN IF \A i \in 1..Len(r) : r[i] = r[1] THEN GateTable("PERM", loc, r)
+     ELSE TLCEval([b \in 1..Dim(r) |-> LET dg == Digits(b - 1, r)
+                                       IN [idx |-> Index([i \in 1..Len(r) |-> dg[full[i] + 1]], pr), ph |-> 0]])
+\* table T acting on the qudits loc (in that order) of a register with radixes r: bring them to the front, apply T (x) I, take them back
+Conjugated(T, loc, r) ==
+  LET P == QuditPerm(loc, r) IN Compose(Inverse(P), Compose(Kron(T, Ident(Dim(r) \div Len(T))), P))
+\* the same thing said with the circuit semantics: the one-operation circuit with T at loc
+Placed(T, loc, r) == SemTable(<<[g |-> "TABLE", p |-> <<0>>, loc |-> loc, t |-> T, ops |-> <<>>]>>, r)
 
 RECURSIVE Eval(_)
 Eval(d) ==
@@ -44,6 +76,13 @@ Eval(d) ==
     [] d.k = "embedded" -> Embedded(Eval(d.sub[1]), Rad(d.sub[1]), d.r, d.maps)
     [] d.k = "circuit" ->
          SemTable([i \in 1..Len(d.sub) |-> [g |-> "TABLE", p |-> <<0>>, loc |-> d.locs[i], t |-> Eval(d.sub[i]), ops |-> <<>>]], d.r)
+    \* one-hot location parameters: the gate *is* its part at the selected location
+    [] d.k = "vlg" -> Conjugated(Eval(d.sub[1]), d.locs[d.sel + 1], Rad(d))
+
+\* the two ways of saying "T at loc" agree wherever this module uses them (checked on every case, not assumed)
+RECURSIVE SpecOK(_)
+SpecOK(d) == /\ \A i \in 1..Len(d.sub) : SpecOK(d.sub[i])
+             /\ d.k = "vlg" => LET T == Eval(d.sub[1]) IN SameExactly(Conjugated(T, d.locs[d.sel + 1], Rad(d)), Placed(T, d.locs[d.sel + 1], Rad(d)))
 
 \* number of parameters a construction has to advertise
 RECURSIVE NParams(_)
@@ -51,6 +90,7 @@ NParams(d) ==
   CASE d.k = "base" -> IF d.name = "TABLE" \/ d.name = "OTHER" THEN d.n ELSE ParamArity(d.name, d.p)
     [] d.k = "frozen" -> NParams(d.sub[1]) - Len(d.fz)
     [] d.k = "circuit" -> LET RECURSIVE S(_) S(i) == IF i = 0 THEN 0 ELSE S(i - 1) + NParams(d.sub[i]) IN S(Len(d.sub))
+    [] d.k = "vlg" -> NParams(d.sub[1]) + Len(d.locs)           \* the part's parameters, then one parameter per location
     [] OTHER -> NParams(d.sub[1])
 
 \* what identifies a construction: everything but the observed tables.  Frozen-parameter maps are sets (a dict has no
@@ -61,7 +101,7 @@ Norm(d) == [k |-> d.k, name |-> d.name, p |-> IF d.k = "base" /\ d.name # "TABLE
             t |-> IF d.k = "base" /\ d.name = "TABLE" THEN d.t ELSE <<>>,
             r |-> d.r, n |-> d.n, cr |-> d.cr,
             levels |-> d.levels, maps |-> d.maps, tag |-> d.tag,
-            fz |-> ToSet(d.fz), locs |-> d.locs, sub |-> [i \in 1..Len(d.sub) |-> Norm(d.sub[i])]]
+            fz |-> ToSet(d.fz), locs |-> d.locs, given |-> d.given, sub |-> [i \in 1..Len(d.sub) |-> Norm(d.sub[i])]]
 
 \* ------------------------------------------------------------ clauses
 Adv == C.adv        \* [dim, nq, np, radixes, urows, ucols, uradixes, g0, g1, g2]  (g* = shape of get_grad, -1 when not differentiable)
@@ -71,20 +111,29 @@ DimensionOK(r, np) ==
   /\ Adv.urows = Dim(r) /\ Adv.ucols = Dim(r) /\ Adv.uradixes = r
   /\ (Adv.g0 = -1 \/ np = 0 \/ (Adv.g0 = np /\ Adv.g1 = Dim(r) /\ Adv.g2 = Dim(r)))
 
+\* get_unitary_and_grad(p): C.has_ug = it answered (FALSE: it raised NotImplementedError, i.e. the gate declares no gradient),
+\* C.obs_ug = its unitary part, C.ug = the shape of its gradient part (padded with -1 to three entries).  The unitary part is
+\* the table get_unitary has to give; the gradient part has one (dim x dim) slice per parameter.  Weaker reading for gates
+\* without parameters: only "no slices" is required (len = 0; constant gates answer np.array([]), of shape (0,)).
+UgOK(exp, r, np) ==
+  C.has_ug => /\ ObsOK(C.obs_ug) /\ SameExactly(ObsTable(C.obs_ug), exp)
+              /\ IF np = 0 THEN C.ug[1] = 0 ELSE C.ug = <<np, Dim(r), Dim(r)>>
+
 NamedVerdict ==
   LET exp == GateTable(C.name, C.p, C.r) IN
   IF ~DimensionOK(C.r, ParamArity(C.name, C.p)) THEN "dimension"
   ELSE IF ~ObsOK(C.obs) \/ ~SameExactly(ObsTable(C.obs), exp) THEN "named-gate-matrix"
   ELSE IF C.has_x /\ (~ObsOK(C.obs_x) \/ ~SameExactly(ObsTable(C.obs_x), exp)) THEN "expression-backend"
-  ELSE IF C.has_ug /\ (~ObsOK(C.obs_ug) \/ ~SameExactly(ObsTable(C.obs_ug), exp)) THEN "unitary_and_grad-value"
+  ELSE IF ~UgOK(exp, C.r, ParamArity(C.name, C.p)) THEN "unitary_and_grad-value"
   ELSE "ok"
 
 \* a constant gate built from a table (ConstantUnitaryGate, PermutationGate via its own name, IdentityGate ...)
 ComposedVerdict ==
   LET d == C.d  exp == Eval(d) IN
-  IF ~DimensionOK(Rad(d), NParams(d)) THEN "dimension"
+  IF ~SpecOK(d) THEN "spec-inconsistent"
+  ELSE IF ~DimensionOK(Rad(d), NParams(d)) THEN "dimension"
   ELSE IF ~ObsOK(C.obs) \/ ~SameExactly(ObsTable(C.obs), exp) THEN "composition"
-  ELSE IF C.has_ug /\ (~ObsOK(C.obs_ug) \/ ~SameExactly(ObsTable(C.obs_ug), exp)) THEN "unitary_and_grad-value"
+  ELSE IF ~UgOK(exp, Rad(d), NParams(d)) THEN "unitary_and_grad-value"
   ELSE "ok"
 
 \* gate.get_inverse() evaluated at get_inverse_params(p), composed with the gate at p, is the identity
